@@ -474,6 +474,8 @@ def order_oracle(r):
     if oc[0] == 'other':
         return (f'{tag}: the iteration raised {oc[1]}', None)
     sa = c['stop_after']
+    if c.get('stop_kind') == 'cancel' and 'cancelled_after' not in o:
+        sa = None      # the cancellation found nothing suspended inside the stream: the iteration ran to its end
     if 'cancelled_after' in o:
         sa = o['cancelled_after']          # cancelled from outside at some point after the k-th output
         if sa < (c['stop_after'] or 0):
@@ -508,7 +510,7 @@ def coq_order_case(r):
         return '(1%nat, [], false, [], [], (false, false), None, [7%Z], 0%Z)'      # judged by the oracle
     pf = clist(sorted((int(k), v) for k, v in c['pre_fail'].items()), lambda kv: f'({cz(kv[0])}, {cz(kv[1])})')
     cf = clist(sorted((int(k), v) for k, v in c['call_fail'].items()), lambda kv: f'({cz(kv[0])}, {cz(kv[1])})')
-    sa = o['cancelled_after'] if 'cancelled_after' in o else c['stop_after']
+    sa = o['cancelled_after'] if 'cancelled_after' in o else (None if c.get('stop_kind') == 'cancel' else c['stop_after'])
     return (f"({cnat(c['conc'])}, {coq_src(c['src'])}, {cbool(c['has_pre'])}, {pf}, {cf}, ({cbool(c['return_x'])}, {cbool(c['return_exc'])}), "
             f"{copt(sa, cnat)}, {clist(o['received'], cz)}, {cz(outcome_code(o['outcome']))})")
 
